@@ -5,7 +5,7 @@ import readmodel as rm
 
 PROP = "C02"
 MODEL_TARGETS = ["Corr/ReadShow.vo"]
-THEOREMS = ["C02_numpy_spec", "C02_normal_spec", "C02_agree", "C02_sub_identity", "C02_nomatch_is_search", "C02_sow_is_split", "C02_sow_current", "C02_sniff", "C02_read_one_data", "C02_read_engines_agree", "C02_read_agree", "C02_inspect_current", "C02_inspect_twice_current", "C02_read_policy_current", "C02_engine_array_current"]
+THEOREMS = ["C02_numpy_spec", "C02_normal_spec", "C02_agree", "C02_sub_identity", "C02_nomatch_is_search", "C02_sow_is_split", "C02_sow_current", "C02_sniff", "C02_read_one_data", "C02_read_engines_agree", "C02_read_agree", "C02_inspect_current", "C02_inspect_twice_current", "C02_read_policy_current", "C02_engine_array_current", "C02_line_splitter_current"]
 ASSUMPTIONS = [
     "numpy.genfromtxt(lines, names=None, unpack=True, loose=False, ndmin=2) behaves as Model/DataRead.v genfromtxt_rows/numpy_engine "
     "(text after '#' dropped, blank lines skipped, white-space split, every token float()-able, constant column count, else raise)",
